@@ -16,6 +16,7 @@ import (
 	"fmt"
 	"math"
 	"os"
+	"runtime"
 	"strconv"
 	"strings"
 	"time"
@@ -349,6 +350,15 @@ func RunReplays(t tlog, harnesses map[string]func()) {
 // SearchOnReplay names nondets (by the name given to Nondet*) that are inputs of a hash the engine
 // treats as an uninterpreted function. Natively a no-op; see RunReplays.
 func SearchOnReplay(name string) {}
+
+// PreemptAtSync(n) lets the engine switch the running goroutine out at synchronisation points
+// (mutex unlocks, modelled sync.Map operations, zz.Preempt) up to n times per path, forking on
+// each choice. Natively the Go scheduler does what it does; harnesses that use it repeat the
+// racing section many times natively (see their comments).
+func PreemptAtSync(n int) {}
+
+// Preempt is an explicit preemption point.
+func Preempt() { runtime.Gosched() }
 
 func variedName(n string) string {
 	if i := strings.IndexByte(n, '#'); i >= 0 {
